@@ -134,9 +134,14 @@ fn receive_and_check(rep: &mut Report, channel: u32, cmd_idx: usize, payload: &[
     let r = catch(|| {
         let mut h = ChannelHandler::default();
         let mut out: Vec<(usize, u32, u8, Vec<u8>)> = Vec::new();
+        let mut resent: Option<(Vec<Vec<u8>>, bool)> = None;
         for (i, p) in packets.iter().enumerate() {
             if let Some(m) = h.handle_packet(p) {
                 out.push((i, m.channel, m.command.encode() & 0x7f, m.payload.clone()));
+                // the delivered message is itself a message the sender accepts (an echo, a relay)
+                let mut c = Capture::default();
+                let ok = m.send(&mut c).is_ok();
+                resent = Some((c.writes, ok));
             }
         }
         // nothing may be left to deliver: a stray continuation afterwards yields nothing
@@ -144,11 +149,18 @@ fn receive_and_check(rep: &mut Report, channel: u32, cmd_idx: usize, payload: &[
         stray[..4].copy_from_slice(&packets[0][..4]);
         stray[4] = 0;
         let after = h.handle_packet(&stray).is_some();
-        (out, after)
+        (out, after, resent)
     });
     match r {
         Err((sig, d)) => rep.violate(&format!("receiver {sig}"), d, case.clone()),
-        Ok((out, after)) => {
+        Ok((out, after, resent)) => {
+            if let Some((w, ok)) = resent {
+                rep.count("delivered_messages_sent_again");
+                if !ok || w.as_slice() != packets {
+                    let first = w.iter().zip(packets.iter()).position(|(a, b)| a != b);
+                    rep.violate("a delivered message, sent again, is not written as the packets it arrived in", format!("send ok={ok}, {} packets vs {}, first differing packet {first:?}{}", w.len(), packets.len(), first.map(|i| format!(" (header {:02x?} vs {:02x?})", &w[i][..w[i].len().min(7)], &packets[i][..7])).unwrap_or_default()), case.clone());
+                }
+            }
             if out.len() != 1 {
                 rep.violate("receiver did not deliver exactly one message", format!("{} deliveries at packets {:?}", out.len(), out.iter().map(|o| o.0).collect::<Vec<_>>()), case.clone());
             } else {
